@@ -46,7 +46,9 @@ func encryptorTarget(name string, pk bool) *Target {
 				_, l := degLvl(in[0])
 				return e.NewCt(1+dDeg, l+dLvl)
 			}},
-			Call: func(rcv interface{}, in []interface{}, o interface{}) (interface{}, error) { return o, rcv.(E).Encrypt(in[0].(*rlwe.Plaintext), o) }},
+			Call: func(rcv interface{}, in []interface{}, o interface{}) (interface{}, error) {
+				return o, rcv.(E).Encrypt(in[0].(*rlwe.Plaintext), o)
+			}},
 		{Method: "EncryptNew", Doc: "encrypts the input plaintext and returns a newly allocated Ciphertext", Kinds: kinds,
 			Call: func(rcv interface{}, in []interface{}, o interface{}) (interface{}, error) {
 				r, err := rcv.(E).EncryptNew(in[0].(*rlwe.Plaintext))
@@ -60,10 +62,14 @@ func encryptorTarget(name string, pk bool) *Target {
 				{Name: "ct1", Class: "ct", Names: []string{"(level)"}, Make: func(e *Env, g *Gen) []interface{} { return []interface{}{e.MaxLevel()} }},
 				{Name: "ct1/level", Class: "ct", Names: []string{"(level)"}, Make: func(e *Env, g *Gen) []interface{} { return []interface{}{e.MaxLevel() - 2} }}},
 			Out: &OutSpec{Shapes: []Shape{ShapeDirtyWords}, New: func(e *Env, in []interface{}, dDeg, dLvl int) interface{} { return e.NewCt(1+dDeg, in[0].(int)+dLvl) }},
-			Call: func(rcv interface{}, in []interface{}, o interface{}) (interface{}, error) { return o, rcv.(E).EncryptZero(o) }},
+			Call: func(rcv interface{}, in []interface{}, o interface{}) (interface{}, error) {
+				return o, rcv.(E).EncryptZero(o)
+			}},
 		{Method: "EncryptZeroNew", Doc: "generates an encryption of zero and returns a newly allocated Ciphertext",
 			Kinds: []Kind{{Name: "level", Class: "level", Names: []string{"level"}, Make: func(e *Env, g *Gen) []interface{} { return []interface{}{e.MaxLevel() - 1} }}},
-			Call: func(rcv interface{}, in []interface{}, o interface{}) (interface{}, error) { return rcv.(E).EncryptZeroNew(in[0].(int)), nil }},
+			Call: func(rcv interface{}, in []interface{}, o interface{}) (interface{}, error) {
+				return rcv.(E).EncryptZeroNew(in[0].(int)), nil
+			}},
 	}
 	return t
 }
@@ -73,9 +79,9 @@ func decryptorTarget() *Target {
 	kinds := []Kind{ctKind("ct1", 1, 0, nil), ctKind("ct2/level+meta", 2, -1, func(e *Env, ct *rlwe.Ciphertext) { e.DirtyMeta(ct.MetaData) }), ctKind("ct0", 0, 0, nil)}
 	t := &Target{
 		Name: "rlwe.Decryptor", Envs: []string{"rlwe", "rlwe-coef", "bgv", "ckks"},
-		Type:   reflect.TypeOf(&rlwe.Decryptor{}),
-		New:    func(e *Env) interface{} { return rlwe.NewDecryptor(e.Params(), e.SK) },
-		Shared: func(e *Env) []interface{} { return []interface{}{e.SK} },
+		Type:      reflect.TypeOf(&rlwe.Decryptor{}),
+		New:       func(e *Env) interface{} { return rlwe.NewDecryptor(e.Params(), e.SK) },
+		Shared:    func(e *Env) []interface{} { return []interface{}{e.SK} },
 		NotTabled: map[string]string{"GetRLWEParameters": "accessor", "ShallowCopy": "copy constructor (C10)", "WithKey": "copy constructor (C10)"},
 	}
 	t.Rows = []Row{
@@ -89,7 +95,9 @@ func decryptorTarget() *Target {
 				return o, nil
 			}},
 		{Method: "DecryptNew", Doc: "decrypts the Ciphertext and returns the result in a new Plaintext", Kinds: kinds,
-			Call: func(rcv interface{}, in []interface{}, o interface{}) (interface{}, error) { return rcv.(D).DecryptNew(asCt(in[0])), nil }},
+			Call: func(rcv interface{}, in []interface{}, o interface{}) (interface{}, error) {
+				return rcv.(D).DecryptNew(asCt(in[0])), nil
+			}},
 	}
 	return t
 }
@@ -113,35 +121,52 @@ func keyGeneratorTarget() *Target {
 	}
 	t.Rows = []Row{
 		{Method: "GenSecretKey", Doc: "generates a SecretKey on the receiver sk", Kinds: none,
-			Out: &OutSpec{Shapes: dirty, New: func(e *Env, in []interface{}, dDeg, dLvl int) interface{} { return onlyExact(dDeg, dLvl, rlwe.NewSecretKey(e.RLWE)) }},
-			Call: func(rcv interface{}, in []interface{}, o interface{}) (interface{}, error) { rcv.(K).GenSecretKey(o.(*rlwe.SecretKey)); return o, nil }},
+			Out: &OutSpec{Shapes: dirty, New: func(e *Env, in []interface{}, dDeg, dLvl int) interface{} {
+				return onlyExact(dDeg, dLvl, rlwe.NewSecretKey(e.RLWE))
+			}},
+			Call: func(rcv interface{}, in []interface{}, o interface{}) (interface{}, error) {
+				rcv.(K).GenSecretKey(o.(*rlwe.SecretKey))
+				return o, nil
+			}},
 		{Method: "GenSecretKeyNew", Doc: "generates a new SecretKey", Kinds: none,
-			Call: func(rcv interface{}, in []interface{}, o interface{}) (interface{}, error) { return rcv.(K).GenSecretKeyNew(), nil }},
+			Call: func(rcv interface{}, in []interface{}, o interface{}) (interface{}, error) {
+				return rcv.(K).GenSecretKeyNew(), nil
+			}},
 		{Method: "GenSecretKeyWithHammingWeight", Doc: "generates a SecretKey with exactly hw non-zero coefficients on sk",
 			Kinds: []Kind{{Name: "hw=5", Class: "hw", Names: []string{"hw"}, Make: func(e *Env, g *Gen) []interface{} { return []interface{}{5} }}},
-			Out:   &OutSpec{Shapes: dirty, New: func(e *Env, in []interface{}, dDeg, dLvl int) interface{} { return onlyExact(dDeg, dLvl, rlwe.NewSecretKey(e.RLWE)) }},
+			Out: &OutSpec{Shapes: dirty, New: func(e *Env, in []interface{}, dDeg, dLvl int) interface{} {
+				return onlyExact(dDeg, dLvl, rlwe.NewSecretKey(e.RLWE))
+			}},
 			Call: func(rcv interface{}, in []interface{}, o interface{}) (interface{}, error) {
 				rcv.(K).GenSecretKeyWithHammingWeight(in[0].(int), o.(*rlwe.SecretKey))
 				return o, nil
 			}},
 		{Method: "GenSecretKeyWithHammingWeightNew", Doc: "generates a new SecretKey with exactly hw non-zero coefficients",
 			Kinds: []Kind{{Name: "hw=5", Class: "hw", Names: []string{"hw"}, Make: func(e *Env, g *Gen) []interface{} { return []interface{}{5} }}},
-			Call:  func(rcv interface{}, in []interface{}, o interface{}) (interface{}, error) { return rcv.(K).GenSecretKeyWithHammingWeightNew(in[0].(int)), nil }},
+			Call: func(rcv interface{}, in []interface{}, o interface{}) (interface{}, error) {
+				return rcv.(K).GenSecretKeyWithHammingWeightNew(in[0].(int)), nil
+			}},
 		{Method: "GenPublicKey", Doc: "generates a public key from the provided SecretKey on pk", Kinds: skK,
-			Out: &OutSpec{Shapes: dirty, New: func(e *Env, in []interface{}, dDeg, dLvl int) interface{} { return onlyExact(dDeg, dLvl, rlwe.NewPublicKey(e.RLWE)) }},
+			Out: &OutSpec{Shapes: dirty, New: func(e *Env, in []interface{}, dDeg, dLvl int) interface{} {
+				return onlyExact(dDeg, dLvl, rlwe.NewPublicKey(e.RLWE))
+			}},
 			Call: func(rcv interface{}, in []interface{}, o interface{}) (interface{}, error) {
 				rcv.(K).GenPublicKey(in[0].(*rlwe.SecretKey), o.(*rlwe.PublicKey))
 				return o, nil
 			}},
 		{Method: "GenPublicKeyNew", Doc: "generates a new public key from the provided SecretKey", Kinds: skK,
-			Call: func(rcv interface{}, in []interface{}, o interface{}) (interface{}, error) { return rcv.(K).GenPublicKeyNew(in[0].(*rlwe.SecretKey)), nil }},
+			Call: func(rcv interface{}, in []interface{}, o interface{}) (interface{}, error) {
+				return rcv.(K).GenPublicKeyNew(in[0].(*rlwe.SecretKey)), nil
+			}},
 		{Method: "GenKeyPairNew", Doc: "generates a new SecretKey and a corresponding public key", Kinds: none,
 			Call: func(rcv interface{}, in []interface{}, o interface{}) (interface{}, error) {
 				sk, pk := rcv.(K).GenKeyPairNew()
 				return []interface{}{sk, pk}, nil
 			}},
 		{Method: "GenRelinearizationKey", Doc: "generates an EvaluationKey that will be used to relinearize Ciphertexts during multiplication, on rlk", Kinds: skK,
-			Out: &OutSpec{Shapes: dirty, New: func(e *Env, in []interface{}, dDeg, dLvl int) interface{} { return onlyExact(dDeg, dLvl, rlwe.NewRelinearizationKey(e.RLWE)) }},
+			Out: &OutSpec{Shapes: dirty, New: func(e *Env, in []interface{}, dDeg, dLvl int) interface{} {
+				return onlyExact(dDeg, dLvl, rlwe.NewRelinearizationKey(e.RLWE))
+			}},
 			Call: func(rcv interface{}, in []interface{}, o interface{}) (interface{}, error) {
 				rcv.(K).GenRelinearizationKey(in[0].(*rlwe.SecretKey), o.(*rlwe.RelinearizationKey))
 				return o, nil
@@ -152,7 +177,9 @@ func keyGeneratorTarget() *Target {
 			}},
 		{Method: "GenGaloisKey", Doc: "generates a GaloisKey for the automorphism X -> X^galEl on gk",
 			Kinds: []Kind{{Name: "galEl,sk", Class: "sk", Names: []string{"galEl", "sk"}, Make: func(e *Env, g *Gen) []interface{} { return []interface{}{gal(e), e.SK.CopyNew()} }}},
-			Out:   &OutSpec{Shapes: dirty, New: func(e *Env, in []interface{}, dDeg, dLvl int) interface{} { return onlyExact(dDeg, dLvl, rlwe.NewGaloisKey(e.RLWE)) }},
+			Out: &OutSpec{Shapes: dirty, New: func(e *Env, in []interface{}, dDeg, dLvl int) interface{} {
+				return onlyExact(dDeg, dLvl, rlwe.NewGaloisKey(e.RLWE))
+			}},
 			Call: func(rcv interface{}, in []interface{}, o interface{}) (interface{}, error) {
 				rcv.(K).GenGaloisKey(in[0].(uint64), in[1].(*rlwe.SecretKey), o.(*rlwe.GaloisKey))
 				return o, nil
@@ -185,7 +212,9 @@ func keyGeneratorTarget() *Target {
 			}},
 		{Method: "GenEvaluationKey", Doc: "generates an EvaluationKey re-encrypting from skInput to skOutput, on evk",
 			Kinds: []Kind{{Name: "skIn,skOut", Class: "sk", Names: []string{"skInput", "skOutput"}, Make: func(e *Env, g *Gen) []interface{} { return []interface{}{e.SK.CopyNew(), e.SK2.CopyNew()} }}},
-			Out:   &OutSpec{Shapes: dirty, New: func(e *Env, in []interface{}, dDeg, dLvl int) interface{} { return onlyExact(dDeg, dLvl, rlwe.NewEvaluationKey(e.RLWE)) }},
+			Out: &OutSpec{Shapes: dirty, New: func(e *Env, in []interface{}, dDeg, dLvl int) interface{} {
+				return onlyExact(dDeg, dLvl, rlwe.NewEvaluationKey(e.RLWE))
+			}},
 			Call: func(rcv interface{}, in []interface{}, o interface{}) (interface{}, error) {
 				rcv.(K).GenEvaluationKey(in[0].(*rlwe.SecretKey), in[1].(*rlwe.SecretKey), o.(*rlwe.EvaluationKey))
 				return o, nil
